@@ -2,6 +2,7 @@ package scen
 
 import (
 	"bytes"
+	"errors"
 	"fmt"
 	"io"
 	"math/big"
@@ -11,6 +12,7 @@ import (
 	"github.com/tjfoc/gmsm/verifsim/ref/refsm2"
 	"github.com/tjfoc/gmsm/verifsim/ref/reftls"
 	"github.com/tjfoc/gmsm/verifsim/simkit"
+	"github.com/tjfoc/gmsm/x509"
 )
 
 // C08: authentication. Family 1: impostor endpoints (the scripted reference
@@ -21,8 +23,8 @@ import (
 var authItems = []string{
 	"S0-honest-server", "S1-untrusted-ca", "S2-expired", "S2-not-yet-valid", "S2-client-clock-before", "S2-client-clock-after", "S2-one-expired", "S3-wrong-name", "S3-one-wrong-name", "S3-ip-literal-server-name",
 	"S4-rsa-sign-cert", "S4-p256-sign-cert", "S4-rsa-enc-cert", "S5-skx-other-key", "S6-skx-replayed-randoms", "S7-skx-other-enc-cert", "S8-skx-omitted", "S9-skx-malformed",
-	"S10-no-enc-key", "S11-certs-swapped", "S12-one-cert",
-	"C0-honest-client", "C1-no-cert", "C2-untrusted-ca", "C3-cv-other-key", "C4-cv-other-transcript", "C5-cv-omitted", "C6-selfsigned-allowed", "C7-selfsigned-cv-other-key", "C8-ifgiven-no-cert", "C9-expired", "C9-server-clock-after",
+	"S10-no-enc-key", "S11-certs-swapped", "S12-one-cert", "S13-eku-clientauth-only", "S14-keyusage-sign-cert", "S14-keyusage-enc-cert", "V1-client-callback-rejects",
+	"C0-honest-client", "C1-no-cert", "C2-untrusted-ca", "C3-cv-other-key", "C4-cv-other-transcript", "C5-cv-omitted", "C6-selfsigned-allowed", "C7-selfsigned-cv-other-key", "C8-ifgiven-no-cert", "C9-expired", "C9-server-clock-after", "C10-eku-serverauth-only", "V2-server-callback-rejects",
 	"M-flip-byte", "M-replace-from-session1", "M-drop", "M-duplicate", "M-swap", "M-suite-strip", "M-serverhello-suite", "M-cert-substitute", "M7-refragment(legal)", "M7-warning-alert", "clock-skew",
 }
 var authReach = []string{"victim-rejected", "allowed-completed", "honest-completed", "gm-cbc", "gm-gcm", "policy-request", "policy-require-any", "policy-verify-if-given", "policy-require-and-verify", "mitm-both-failed", "mitm-one-failed", "mitm-noop-completed", "session1-harvested", "rewrite-clienthello", "rewrite-serverhello", "rewrite-certificate", "rewrite-skx", "rewrite-ckx", "rewrite-other", "views-compared"}
@@ -41,18 +43,19 @@ func ident(name string, withKey bool) *reftls.Identity {
 }
 
 type impRun struct {
-	Item       string
-	Expect     int // expFail / expComplete for the victim
-	Suite      uint16
-	VictimSrv  bool // victim is the gmtls server (client impostor)
-	Policy     gmtls.ClientAuthType
-	Skew       int64 // victim clock skew (ns)
-	scfg       *reftls.ServerCfg
-	ccfg       *reftls.ClientCfg
-	SrvCert    [2]string // victim client: which fixture the honest comparison uses (for messages)
-	NeedS1     bool      // needs an honest first session to harvest material
-	WantPeer   string    // for allowed client certs: expected PeerCertificates[0]
-	VictimName string    // ServerName of the victim client (default server.sim)
+	Item            string
+	Expect          int // expFail / expComplete for the victim
+	Suite           uint16
+	VictimSrv       bool // victim is the gmtls server (client impostor)
+	Policy          gmtls.ClientAuthType
+	Skew            int64 // victim clock skew (ns)
+	scfg            *reftls.ServerCfg
+	ccfg            *reftls.ClientCfg
+	SrvCert         [2]string // victim client: which fixture the honest comparison uses (for messages)
+	NeedS1          bool      // needs an honest first session to harvest material
+	WantPeer        string    // for allowed client certs: expected PeerCertificates[0]
+	VictimName      string    // ServerName of the victim client (default server.sim)
+	CallbackRejects bool      // the victim's VerifyPeerCertificate callback returns an error
 }
 
 const day = int64(24 * 3600 * 1e9)
@@ -66,7 +69,7 @@ func drawImpostor(c *simkit.Choice, ent *simkit.Stream) impRun {
 		sc := &reftls.ServerCfg{Rand: ent, Suites: []uint16{ir.Suite}, Sign: ident("srv-sign", true), Enc: ident("srv-enc", true)}
 		ir.scfg = sc
 		items := []string{"S0-honest-server", "S1-untrusted-ca", "S2-expired", "S2-not-yet-valid", "S2-client-clock-before", "S2-client-clock-after", "S2-one-expired", "S3-wrong-name", "S3-one-wrong-name", "S3-ip-literal-server-name",
-			"S4-rsa-sign-cert", "S4-p256-sign-cert", "S4-rsa-enc-cert", "S5-skx-other-key", "S6-skx-replayed-randoms", "S7-skx-other-enc-cert", "S8-skx-omitted", "S9-skx-malformed", "S10-no-enc-key", "S11-certs-swapped", "S12-one-cert"}
+			"S4-rsa-sign-cert", "S4-p256-sign-cert", "S4-rsa-enc-cert", "S5-skx-other-key", "S6-skx-replayed-randoms", "S7-skx-other-enc-cert", "S8-skx-omitted", "S9-skx-malformed", "S10-no-enc-key", "S11-certs-swapped", "S12-one-cert", "S13-eku-clientauth-only", "S14-keyusage-sign-cert", "S14-keyusage-enc-cert", "V1-client-callback-rejects"}
 		ir.Item = items[c.Choose(len(items), simkit.LFault)]
 		switch ir.Item {
 		case "S0-honest-server":
@@ -138,13 +141,21 @@ func drawImpostor(c *simkit.Choice, ent *simkit.Stream) impRun {
 			sc.CertList = [][]byte{pki.DER("srv-enc"), pki.DER("srv-sign")}
 		case "S12-one-cert":
 			sc.CertList = [][]byte{pki.DER("srv-sign")}
+		case "S13-eku-clientauth-only":
+			sc.Sign, sc.Enc = ident("srvekucli-sign", true), ident("srvekucli-enc", true)
+		case "S14-keyusage-sign-cert":
+			sc.Sign = ident("srvkubad-sign", true)
+		case "S14-keyusage-enc-cert":
+			sc.Enc = ident("srvkubad-enc", true)
+		case "V1-client-callback-rejects":
+			ir.CallbackRejects = true // honest server; the victim's VerifyPeerCertificate says no
 		}
 		return ir
 	}
 	cc := &reftls.ClientCfg{Rand: ent, Suites: []uint16{ir.Suite}, ServerName: "server.sim"}
 	ir.ccfg = cc
 	ir.Policy = gmtls.RequireAndVerifyClientCert
-	items := []string{"C0-honest-client", "C1-no-cert", "C2-untrusted-ca", "C3-cv-other-key", "C4-cv-other-transcript", "C5-cv-omitted", "C6-selfsigned-allowed", "C7-selfsigned-cv-other-key", "C8-ifgiven-no-cert", "C9-expired", "C9-server-clock-after"}
+	items := []string{"C0-honest-client", "C1-no-cert", "C2-untrusted-ca", "C3-cv-other-key", "C4-cv-other-transcript", "C5-cv-omitted", "C6-selfsigned-allowed", "C7-selfsigned-cv-other-key", "C8-ifgiven-no-cert", "C9-expired", "C9-server-clock-after", "C10-eku-serverauth-only", "V2-server-callback-rejects"}
 	ir.Item = items[c.Choose(len(items), simkit.LFault)]
 	verifying := []gmtls.ClientAuthType{gmtls.RequireAndVerifyClientCert, gmtls.VerifyClientCertIfGiven}
 	lax := []gmtls.ClientAuthType{gmtls.RequireAnyClientCert, gmtls.RequestClientCert}
@@ -186,6 +197,13 @@ func drawImpostor(c *simkit.Choice, ent *simkit.Stream) impRun {
 	case "C9-expired":
 		cc.Cert = ident("cliexp", true)
 		ir.Policy = verifying[c.Choose(2, simkit.LFault)]
+	case "C10-eku-serverauth-only":
+		cc.Cert = ident("cliekusrv", true)
+		ir.Policy = verifying[c.Choose(2, simkit.LFault)]
+	case "V2-server-callback-rejects":
+		cc.Cert = ident("cli", true)
+		ir.Policy = []gmtls.ClientAuthType{gmtls.RequireAndVerifyClientCert, gmtls.VerifyClientCertIfGiven, gmtls.RequireAnyClientCert, gmtls.RequestClientCert}[c.Choose(4, simkit.LFault)]
+		ir.CallbackRejects = true
 	case "C9-server-clock-after":
 		cc.Cert = ident("clinarrow", true)
 		ir.Skew = 2*day - int64(c.Choose(3600, simkit.LFault))*1e9
@@ -227,12 +245,22 @@ func runAuthImpostor(c *simkit.Choice, r *simkit.Rec) {
 		vRaw, pRaw := s.NewConnPair("victim"+tag, "impostor"+tag, n1, n2)
 		s.Spawn("victim"+tag, 0, func() {
 			var conn *gmtls.Conn
+			reject := func(rawCerts [][]byte, chains [][]*x509.Certificate) error {
+				return errors.New("verifsim: application-level verification says no")
+			}
 			if ir.VictimSrv {
-				conn = gmtls.Server(vRaw, victimServerCfg(s, ir.Suite, entV, skew, policy))
+				vs := victimServerCfg(s, ir.Suite, entV, skew, policy)
+				if ir.CallbackRejects && tag == "2" {
+					vs.VerifyPeerCertificate = reject
+				}
+				conn = gmtls.Server(vRaw, vs)
 			} else {
 				vc := victimClientCfg(s, ir.Suite, entV, skew)
 				if ir.VictimName != "" && tag == "2" {
 					vc.ServerName = ir.VictimName
+				}
+				if ir.CallbackRejects && tag == "2" {
+					vc.VerifyPeerCertificate = reject
 				}
 				conn = gmtls.Client(vRaw, vc)
 			}
